@@ -52,6 +52,7 @@ def check_C01(ctx, tier):
     G.rule_K_CAPTURE(ctx, ctx.repo)        # ... and none of the user's keywords is captured on the way
     K.rule_K_INFO_TYPED_SENT(ctx, ctx.repo)    # the keymaps C01 calls information-preserving really keep every argument, type tag and segment boundary
     K.rule_K_SENTINEL_SET(ctx, ctx.repo)       # ... with the separator the caller configured
+    K.rule_K_FORWARD(ctx, ctx.repo)            # ... and the encoders run with the options as configured (an unset option is the encoder's default)
     K.rule_K_FAST(ctx, ctx.repo)
     K.rule_K_HASH(ctx, ctx.repo)
     K.rule_K_DISPATCH(ctx, ctx.repo)
@@ -84,6 +85,7 @@ def check_C02(ctx, tier):
             _sample_paths(ctx, d, paths, lambda o: o.kind == 'return' and any(e.kind == 'EVAL' for e in o.st.events) and o.st.facts.get('archived'))
     S.rule_S_LOAD_DUMP(ctx, ctx.repo)      # load(k) finds what dump(k) wrote, at the cache level
     S.rule_S_NOSWALLOW(ctx, ctx.repo)      # ... and a dump that failed says so (the wrappers discard from memory right after it)
+    S.rule_S_IDENT(ctx, ctx.repo)          # ... and archiving is not switched off in a restored cache by an identity test against a per-process placeholder
     ac = A.Cache(ctx.repo, unroll=1)
     A.rule_A_FNAME(ctx, ctx.repo, ac)             # ... under an entry name that is the same in every session
     A.rule_A_KEYERR_FOUND(ctx, ctx.repo, ac)      # ... and a stored None / 0 / '' is found, not reported as missing
@@ -157,6 +159,7 @@ def check_C07(ctx, tier):
     A.rule_A_PUBFAIL(ctx, ctx.repo, _ac)   # a failed write-back never replaces or removes what is archived
     A.rule_A_WRITEALL(ctx, ctx.repo, _ac)  # a dumped entry is written whatever the archive holds already
     A.rule_A_FNAME(ctx, ctx.repo, _ac)     # ... under a name of its own (a dump never overwrites the entry of another key)
+    A.rule_A_NOCACHE(ctx, ctx.repo, _ac)   # ... on top of what the store holds now (no remembered image that another handle's write has made stale)
     A.rule_A_CODEC(ctx, ctx.repo)          # ... in a form the reader (of any program) can decode
     A.rule_A_SIBLINGS(ctx, ctx.repo)       # ... through the same encoders whichever writer (update / __setitem__) is used
     A.rule_A_CODEC_CONFIG(ctx, ctx.repo)         # ... decided by the archive's settings, not by what the value looks like
@@ -236,12 +239,15 @@ def check_C09(ctx, tier):
 def check_C10(ctx, tier):
     K.rule_K_INFO_TYPED_SENT(ctx, ctx.repo)
     K.rule_K_SENTINEL_SET(ctx, ctx.repo)
+    K.rule_K_CHAIN(ctx, ctx.repo)          # a chain a + b keys with the options configured on b
+    K.rule_K_FORWARD(ctx, ctx.repo)
     K.rule_K_HASH(ctx, ctx.repo)
     K.rule_K_DISPATCH(ctx, ctx.repo)
     K.rule_K_FAST(ctx, ctx.repo)
     K.rule_K_OWN(ctx, ctx.repo)
     G.rule_SIG(ctx, ctx.repo)              # a positional value is never filed under a keyword-only / variadic name (two different calls would share a key)
     G.rule_K_CAPTURE(ctx, ctx.repo)        # no function on the way captures a user keyword by name
+    G.rule_G_SELFDROP(ctx, ctx.repo)       # an argument is cut out of (or masked in) the key only when the specification selects it
     G.rule_G(ctx, ctx.repo, want=('G-VAL', 'G-PREC'))
     RR.rule_R_GUARD_STR_KW(ctx, ctx.repo)  # rounding touches floats only: every other value (bool vs int under typed=True) reaches the keymap as it was passed
     RR.rule_R_PURE(ctx, ctx.repo)          # the package never changes a keymap (its typed / flat / sentinel settings) that the caller handed in
@@ -300,6 +306,7 @@ def check_C19(ctx, tier):
     G.rule_V_TRYRESET(ctx, ctx.repo)
     G.rule_V_PARTIALSHAPE(ctx, ctx.repo)
     S.rule_S_IDENT(ctx, ctx.repo, parts=('optional',))   # a fixed argument is told from an open position without mistaking None for a marker
+    G.rule_V_DOUBLESTAR(ctx, ctx.repo)             # a keyword the caller repeats overrides the partial's: never forwarded through two ** expansions
     K.rule_K_OWN(ctx, ctx.repo)                    # signature() is free of cross-call state (a memoised argspec mutated in place changes later verdicts)
     ctx.assume("agreement of validate's individual binding checks with the interpreter (counting, partial bookkeeping) is value-level and not decided")
     return ('Necessary conditions for "validate/isvalid agree with Python\'s binding without calling the function": every rejection is a TypeError; '
@@ -323,6 +330,7 @@ def check_C12(ctx, tier):
     RR.rule_R_NONE(ctx, ctx.repo)
     RR.rule_R_PURE(ctx, ctx.repo)
     RR.rule_R_STATELESS(ctx, ctx.repo)
+    RR.rule_R_NOORDER(ctx, ctx.repo)
     RR.rule_R_DEEP(ctx, ctx.repo)
     RR.rule_R_ITER(ctx, ctx.repo)
     ctx.assume('numeric results of round(), and whether type(x)(items) can rebuild arbitrary iterables (range, generators), are not decided')
@@ -446,6 +454,7 @@ def check_C14(ctx, tier):
     A.rule_A_COMMIT(ctx, ctx.repo, cache)
     A.rule_A_TXN(ctx, ctx.repo, cache)
     A.rule_A_LISTREAD(ctx, ctx.repo, cache)
+    A.rule_A_READFAIL(ctx, ctx.repo, cache)       # a reader that meets an entry in the middle of being replaced gets "absent", never a failure
     A.rule_A_UNPUB(ctx, ctx.repo, cache)
     ctx.tables['primitives'] = A.PRIMITIVES
     ctx.assume('the interleavings themselves are not enumerated; only what a concurrent process could observe through the structure of the protocols')
